@@ -378,6 +378,86 @@ def rule_staticassert(chk, prog, tier):
     r.exhaustive = False
 
 
+# ------------------------------------------------------------------ C10.i cast constraints
+
+def rule_casts(chk, prog, tier):
+    r = chk.rule('C10.i', 'cast operator constraints: the type name is void or scalar, the operand scalar (unless cast to void), and no cast (also in a chain) converts between a pointer and a floating type; valid casts build a cast node of the named type on the operand',
+                 floor=80, oracle='C11 6.5.4p2-4')
+    fn = prog.require_func('castexpr', 'expr.c')
+    TYPES = ['void', 'bool', 'char', 'int', 'ulong', 'float', 'double', 'ptr', 'fptr', 'struct', 'enum']
+    SRC = ['int', 'char', 'ulong', 'float', 'double', 'ptr', 'fptr', 'struct', 'voidexpr', 'enum', 'bool']
+    cases = [((d,), s_) for d in TYPES for s_ in SRC] + [((d1, d2), s_) for d1 in ('float', 'ptr', 'int', 'void') for d2 in ('float', 'ptr', 'int', 'ulong') for s_ in ('int', 'ptr', 'float')]
+    def cls(n):
+        return {'void': 'void', 'voidexpr': 'void', 'struct': 'struct', 'float': 'flt', 'double': 'flt', 'ptr': 'ptr', 'fptr': 'ptr'}.get(n, 'int')
+    for dsts, src in cases:
+        def runner(it):
+            w = World(prog, it=it, target='x86_64-sysv')
+            tys = {'void': w.t('void'), 'bool': w.t('bool'), 'char': w.t('char'), 'int': w.t('int'), 'ulong': w.t('ulong'), 'float': w.t('float'), 'double': w.t('double'),
+                   'ptr': w.mkptr(w.t('int')), 'struct': w.mkstruct(size=8, align=4), 'enum': w.mkenum(w.t('uint')), 'voidexpr': w.t('void')}
+            ft = it.call('mktype', [ev(prog, 'TYPEFUNC'), 0]); ft.obj.f.update({('base',): w.t('int'), ('qual',): 0, ('size',): 0, ('align',): 0, ('incomplete',): 0})
+            tys['fptr'] = w.mkptr(ft)
+            operand = w.temp(tys[src], 'x')
+            toks = []
+            for d in dsts: toks += [('TLPAREN', None), ('TYPE', d), ('TRPAREN', None)]
+            toks += [('X', None), ('TSEMICOLON', None)]
+            tokobj = it.gobj('tok'); st = {'i': 0}
+            def load():
+                k, v = toks[min(st['i'], len(toks) - 1)]
+                tokobj.f[('kind',)] = ev(prog, 'TIDENT' if k in ('TYPE', 'X') else k); tokobj.f[('lit',)] = None
+                tokobj.f[('loc', 'file')] = None; tokobj.f[('loc', 'line')] = 1; tokobj.f[('loc', 'col')] = 1
+            def nxt(i2, a, e): st['i'] += 1; load(); return None
+            def consume(i2, a, e):
+                if tokobj.f[('kind',)] == a[0] and toks[st['i']][0] not in ('TYPE', 'X'): nxt(i2, a, e); return 1
+                return 0
+            def expect(i2, a, e):
+                if tokobj.f[('kind',)] != a[0] or toks[st['i']][0] in ('TYPE', 'X'): raise Terminal('error', 'expected token')
+                nxt(i2, a, e); return None
+            def typename(i2, a, e):
+                k, v = toks[st['i']]
+                if k != 'TYPE': return None
+                nxt(i2, a, e)
+                if a[2] is not None: i2.assign(a[2].obj, a[2].path, None)
+                return tys[v]
+            def unaryexpr(i2, a, e):
+                if toks[st['i']][0] != 'X': raise Terminal('error', 'expected expression')
+                nxt(i2, a, e); return operand
+            it.models.update({'next': nxt, 'consume': consume, 'expect': expect, 'typename': typename, 'unaryexpr': unaryexpr,
+                              'xmalloc': lambda i2, a, e: Ptr(Obj('heap@%s' % e.get('line'), 'heap'), ()),
+                              'error': lambda i2, a, e: (_ for _ in ()).throw(Terminal('error', cmodel.fmt_of(i2, a, 1))),
+                              'fatal': lambda i2, a, e: (_ for _ in ()).throw(Terminal('fatal', cmodel.fmt_of(i2, a, 0)))})
+            load()
+            e = it.call(fn, [Ptr(Obj('scope', 'heap'), ())])
+            chain = []
+            x = e
+            while x.obj is not operand.obj:
+                if it.load(x.obj, ('kind',)) != ev(prog, 'EXPRCAST'): return 'shape'
+                chain.append(next((n for n, t in tys.items() if t.obj is it.load(x.obj, ('type',)).obj), '?'))
+                x = it.load(x.obj, ('base',))
+            return chain
+        runs = explore(prog, runner, {}, max_runs=4, on_unsupported='keep')
+        if len(runs) != 1 or runs[0].outcome == 'unsupported':
+            raise AnalysisBroken('castexpr %s %s: %s' % (dsts, src, runs[0].detail if runs else 'no run'))
+        run = runs[0]
+        # reference: check each conversion of the chain, innermost first
+        bad = None
+        cur = cls(src)
+        for d in reversed(dsts):
+            dc = cls(d)
+            if dc == 'struct': bad = 'cast to a non-scalar type'
+            elif dc != 'void' and cur in ('struct', 'void'): bad = 'operand is not scalar'
+            elif {dc, cur} == {'ptr', 'flt'}: bad = 'pointer <-> floating'
+            if bad: break
+            cur = dc
+        key = 'cast:%s%s' % (''.join('(%s)' % d for d in dsts), src)
+        if bad:
+            r.instance(run.outcome == 'terminal:error', key, 'expr.c:%s' % fn.get('line'), 'constraint violation (%s) must be diagnosed; cproc builds %s' % (bad, run.value if run.outcome == 'return' else run.outcome))
+        else:
+            want = [d if d != 'voidexpr' else 'void' for d in dsts]
+            r.instance(run.outcome == 'return' and [g if g != 'voidexpr' else 'void' for g in (run.value if isinstance(run.value, list) else [])] == want, key, 'expr.c:%s' % fn.get('line'),
+                       'valid cast: expected cast nodes %s on the operand; got %s %s' % (want, run.outcome, run.value if run.outcome == 'return' else run.detail))
+    r.exhaustive = True
+
+
 def run(chk, tier):
     from props import c01f
     prog = facts.programs()['cproc-qbe']
@@ -392,5 +472,6 @@ def run(chk, tier):
     from props import c12
     chk.guard('C12.c', lambda: c12.rule_directives(chk, prog, tier))   # unimplemented directives and ## are diagnosed
     chk.guard('C10.h', lambda: rule_staticassert(chk, prog, tier))
+    chk.guard('C10.i', lambda: rule_casts(chk, prog, tier))
     from props import c09
     chk.guard('C09.f', lambda: c09.rule_redecl_types(chk, prog, tier))
